@@ -1,0 +1,82 @@
+//go:build verif
+
+package cmd
+
+import (
+	"bufio"
+	"context"
+	"encoding/json"
+	"fmt"
+	"os"
+	"runtime/debug"
+
+	"github.com/gosuri/uilive"
+	"github.com/spf13/pflag"
+)
+
+// Verification hook (build tag verif only): when OCTOSQL_VERIF_SERVE=1 the binary executes many command lines
+// in one process. Every request runs the unmodified root command; only its standard output is redirected to a file.
+// The harness re-runs anything suspicious in an ordinary one-shot process, so this is an accelerator, not an oracle.
+
+type verifRequest struct {
+	Dir    string   `json:"dir"`
+	Args   []string `json:"args"`
+	Stdout string   `json:"stdout"`
+}
+
+type verifResponse struct {
+	Exit  int    `json:"exit"`
+	Err   string `json:"err"`
+	Panic string `json:"panic"`
+}
+
+func init() {
+	if os.Getenv("OCTOSQL_VERIF_SERVE") != "1" {
+		return
+	}
+	protocolOut := os.Stdout
+	sc := bufio.NewScanner(os.Stdin)
+	sc.Buffer(nil, 64*1024*1024)
+	enc := json.NewEncoder(protocolOut)
+	for sc.Scan() {
+		var req verifRequest
+		if err := json.Unmarshal(sc.Bytes(), &req); err != nil {
+			enc.Encode(verifResponse{Exit: -1, Err: "bad request: " + err.Error()})
+			continue
+		}
+		enc.Encode(verifRunOne(req))
+	}
+	os.Exit(0)
+}
+
+func verifRunOne(req verifRequest) (resp verifResponse) {
+	f, err := os.Create(req.Stdout)
+	if err != nil {
+		return verifResponse{Exit: -1, Err: err.Error()}
+	}
+	savedStdout, savedLive := os.Stdout, uilive.Out
+	os.Stdout, uilive.Out = f, f
+	defer func() {
+		os.Stdout, uilive.Out = savedStdout, savedLive
+		f.Close()
+	}()
+	if err := os.Chdir(req.Dir); err != nil {
+		return verifResponse{Exit: -1, Err: err.Error()}
+	}
+	rootCmd.Flags().VisitAll(func(fl *pflag.Flag) {
+		fl.Value.Set(fl.DefValue)
+		fl.Changed = false
+	})
+	rootCmd.SetArgs(req.Args)
+	defer func() {
+		if r := recover(); r != nil {
+			resp.Exit = 2
+			resp.Panic = fmt.Sprintf("panic: %v\n\n%s", r, debug.Stack())
+		}
+	}()
+	if err := rootCmd.ExecuteContext(context.Background()); err != nil {
+		resp.Exit = 1
+		resp.Err = "Error: " + err.Error()
+	}
+	return resp
+}
